@@ -229,6 +229,69 @@ def gen_netlist(rng, polarity='mixed', icmode='none', srckw='same', extras=True,
     return {'lines': b.lines, 'tags': sorted(b.tags)}
 
 
+def add_closed_loop(rng, lines):
+    """hang a closed chain on one node of the netlist: k like elements (plus, sometimes, one
+    foreign element) from a node `at` through fresh private nodes back to `at`.  With two
+    elements and nothing foreign this is the degenerate pair that is at once in parallel and
+    (through its private node) in series.  Returns (lines, info)."""
+    b = Builder(rng)
+    b.nn = 50
+    for p_ in ('R', 'C', 'L', 'Z', 'Y', 'V', 'NR'):
+        b.cnt[p_] = 90
+    nodes = sorted({t for l in lines for t in l.split()[1:3]})
+    at = rng.choice(['0', '0'] + nodes)
+    ty = rng.choice(['R', 'C', 'C', 'L', 'L', 'Z', 'Y', 'V'])
+    k = 2 if rng.random() < 0.6 else 3
+    items = [ty] * k
+    if ty == 'V' or rng.random() < 0.3:
+        items.insert(rng.randint(0, k), 'R' if ty == 'V' else rng.choice(['V', 'C'] if ty == 'R' else ['R', 'V']))
+    icmode = rng.choice(['none', 'none', 'equal', 'unequal', 'partial', 'zero'])
+    common = val(rng, -4, 4)
+    chain = [at] + [b.fresh() for _ in range(len(items) - 1)] + [at]
+    members = []
+    for j, t in enumerate(items):
+        ic = None
+        if t in 'CL' and t == ty:
+            other = val(rng, -4, 4)
+            half = rng.random() < 0.5
+            ic = {'none': None, 'equal': common, 'unequal': other, 'partial': common if half else None, 'zero': Fraction(0)}[icmode]
+        nm = b.elem(t, chain[j], chain[j + 1], rng.random() < 0.5, ic=ic, kw='step' if t == 'V' else None)
+        if t == ty:
+            members.append(nm)
+    return list(lines) + b.lines, {'at': at, 'members': members, 'type': ty, 'len': len(items), 'ic': icmode}
+
+
+def loop_current_check(case, wr, so, sn):
+    """closed chain that was series-combined as a whole: the combined element sits at the place
+    (and in the orientation) of the first enumerated member, so it must carry that member's
+    current (the loop current is the only observable of an isolated loop).  Returns None when
+    the situation is not exactly that one, else a list of (kind, detail) differences."""
+    info = case.get('loop')
+    if not info or not so or not sn or 'error' in so or 'error' in sn:
+        return None
+    members = set(info['members'])
+    orig = {e['name']: e for e in wr.get('orig', [])}
+    new = {e['name']: e for e in wr.get('new', [])}
+    if len(members) < 2 or not members <= set(orig) or members & set(new):
+        return None
+    firsts = [ent[1][0] for ent in wr.get('log', []) if ent[0] == 'list' and set(ent[1]) == members]
+    if len(firsts) != 1:
+        return None
+    nw = lambda d: sum(1 for e in d.values() if e['type'] == 'W')
+    if nw(new) - nw(orig) != len(members) - 1:
+        return None                      # not one series combination of the whole group
+    first = orig[firsts[0]]
+    cand = [e for n_, e in new.items() if n_ not in orig and e['type'] == first['type'] and e['nodes'] == first['nodes']]
+    if len(cand) != 1:
+        return None
+    a, b_ = so['cI'].get(first['name']), sn['cI'].get(cand[0]['name'])
+    if a is None or b_ is None:
+        return None
+    if Fraction(a) != Fraction(b_):
+        return [('loop-I', 'loop current at %s: %s -> %s at %s' % (first['name'], a, b_, cand[0]['name']))]
+    return []
+
+
 def gen_simplify_args(rng, lines, mode='default'):
     names = [l.split()[0] for l in lines if l.split()[0] != 'W']
     nodes = sorted({t for l in lines for t in l.split()[1:3]})
